@@ -81,6 +81,14 @@ def checks_table():
     return "\n".join(rows)
 
 
+def theorems_table():
+    rows = ["| id | # | theorems in `lean/OV/Props/Cxx.lean` (names; `_partial` = proved under a stated extra hypothesis, `_refuted`/`_witness` = kernel-checked counterexample) |", "|---|---|---|"]
+    for f in sorted((V / "lean" / "OV" / "Props").glob("C*.lean")):
+        names = re.findall(r"^theorem\s+([A-Za-z0-9_.']+)", f.read_text(), flags=re.M)
+        rows.append(f"| {f.stem} | {len(names)} | {', '.join('`'+n+'`' for n in names)} |")
+    return "\n".join(rows)
+
+
 def replace(text, tag, body):
     a, b = f"<!-- AUTOGEN:{tag} -->", f"<!-- /AUTOGEN:{tag} -->"
     if a not in text:
@@ -97,6 +105,7 @@ def main():
     t = replace(t, "open-findings", o)
     t = replace(t, "fixed-findings", f)
     t = replace(t, "checks", checks_table())
+    t = replace(t, "theorems", theorems_table())
     p.write_text(t)
     print("open findings:", no, "fixed:", nf)
 
